@@ -218,11 +218,6 @@ var codeNL = regexp.MustCompile(`\n ?`)
 
 var alignRe = regexp.MustCompile(`^\s*text-align:\s*(left|center|right)\s*;?\s*$`)
 
-// escURL applies goldmark's percent-escaping (and nothing else: no backslash-unescaping, no
-// character reference resolution) so that the choice between "b c" / "b%20c" or "ä" / "%C3%A4"
-// is not compared, while a different destination still is.
-func escURL(s string) string { return string(util.URLEscape([]byte(s), false)) }
-
 // normAttrs applies the documented presentation equivalences. The statement fixes "destinations and
 // titles, list starts, alignment"; it does not fix how they are spelled:
 //   - heading id attributes are an extra of vuego's templates: ignored;
@@ -230,7 +225,7 @@ func escURL(s string) string { return string(util.URLEscape([]byte(s), false)) }
 //   - <ol> without start == start="1";
 //   - <img> without alt == alt=""; white space runs in alt collapsed (it is text);
 //   - an empty title == no title (neither has a tooltip);
-//   - href/src are compared after the same percent-escaping on both sides.
+//   - href/src are compared exactly.
 func normAttrs(tag string, a map[string]string) map[string]string {
 	if a == nil {
 		a = map[string]string{}
@@ -257,11 +252,8 @@ func normAttrs(tag string, a map[string]string) map[string]string {
 		if v, ok := a["title"]; ok && v == "" {
 			delete(a, "title")
 		}
-		for _, k := range []string{"href", "src"} {
-			if v, ok := a[k]; ok {
-				a[k] = escURL(v)
-			}
-		}
+		// href / src are compared exactly: the statement names the destinations, and the reference
+		// percent-encodes them
 	}
 	if len(a) == 0 {
 		return nil
